@@ -13,11 +13,11 @@ for V in v1 v2; do
   R=$OUT/${ID}_$V
   git checkout -- . ; git apply $S/patch.diff || { echo "{\"id\":\"$ID\",\"v\":\"$V\",\"error\":\"patch does not apply\"}" > $R.json; continue; }
   cmake --build _build -j$J > $R.build_patched.log 2>&1; b1=$?
-  (cd $WT && sh $S/build_and_run.sh $WT > $R.demo_patched.log 2>&1); d1=$?
+  (cd $WT && sh $S/build_and_run.sh $DEMOARG > $R.demo_patched.log 2>&1); d1=$?
   ctest --test-dir _build -j$J --timeout 900 > $R.ctest_patched.log 2>&1; c1=$?
   git checkout -- .
   cmake --build _build -j$J > $R.build_clean.log 2>&1; b0=$?
-  (cd $WT && sh $S/build_and_run.sh $WT > $R.demo_clean.log 2>&1); d0=$?
+  (cd $WT && sh $S/build_and_run.sh $DEMOARG > $R.demo_clean.log 2>&1); d0=$?
   SUMMARY=$(grep "tests passed" $R.ctest_patched.log | tail -n1)
   echo "{\"id\":\"$ID\",\"v\":\"$V\",\"base\":\"$BASE\",\"build_patched\":$b1,\"demo_patched_exit\":$d1,\"ctest_patched_exit\":$c1,\"ctest_summary\":\"$SUMMARY\",\"build_clean\":$b0,\"demo_clean_exit\":$d0}" > $R.json
   cat $R.json
